@@ -489,7 +489,7 @@ def run(ctx: core.Ctx):
         s_jobs = [['w_states', {'i': k, 'worlds': 1, 'rounds': 3, 'ops': 25, 'queries': 45}] for k in range(12)]
         t_jobs = [['w_texts', {'i': k, 'stores': 6, 'extra': 8}] for k in range(4)]
     else:
-        s_jobs = [['w_states', {'i': k, 'worlds': 4, 'rounds': 12, 'ops': 30, 'queries': 120}] for k in range(24)]
+        s_jobs = [['w_states', {'i': k, 'worlds': 3, 'rounds': 10, 'ops': 30, 'queries': 100}] for k in range(24)]
         t_jobs = [['w_texts', {'i': k, 'stores': 60, 'extra': 30}] for k in range(8)]
     core.fanout(ctx, MODULE, 'dispatch', s_jobs + t_jobs, timeout=2400)
     ctx.floor('getmdstate.responses', 1000)
